@@ -477,6 +477,24 @@ func (ce *CEnv) evalCall(e *CExpr) Val {
 			}
 			ts = append(ts, t)
 		}
+		// ground evaluation: a non-recursive spec function applied to literal data is computed by rewriting
+		if f.Body != nil && f.Ground {
+			allGround := true
+			cache := map[*Term]bool{}
+			for _, t := range ts {
+				if !isGround(t, ce.ex.prog.Lib, cache) {
+					allGround = false
+					break
+				}
+			}
+			if allGround {
+				fuel := 400
+				r := ce.ex.prog.Lib.groundEval(App(name, f.Res, ts...), &fuel)
+				if r != nil && (r.Op == "int" || r.Op == "bool" || r.Op == "bvlit") {
+					return SV{T: r}
+				}
+			}
+		}
 		return SV{T: App(name, f.Res, ts...)}
 	}
 	if strings.Contains(name, ".") {
